@@ -23,9 +23,9 @@ ID = 'C05'
 HASHSEED_IS_VIOLATION = False
 
 TIERS = {
-    'quick': {'runs': 48000, 'replica_runs': 600, 'hash_seeds': [1, 4242], 'timeout_s': 420, 'shrink_s': 40},
+    'quick': {'runs': 48000, 'replica_runs': 600, 'hash_seeds': [1, 4242], 'timeout_s': 1200, 'shrink_s': 40},
     'thorough': {'runs': 400000, 'replica_runs': 3000, 'hash_seeds': [1, 7, 99, 4242, 31337],
-                 'timeout_s': 3000, 'shrink_s': 120},
+                 'timeout_s': 9000, 'shrink_s': 120},
 }
 
 RULE = ('Each run: a model (default / AMR / custom), a start graph (decoded, hence carrying markers, or hand-built), then '
